@@ -23,6 +23,10 @@ FORMULATIONS = [
     {"name": "g", "function": "g = t**2*exp(-t)", "ode": {"expression": "g''' = -g - 3*g' - 3*g''", "initial_values": {"g": "0", "g'": "0", "g''": "2"}},
      "chain": [{"expression": "g' = gq", "initial_value": "0"}, {"expression": "gq' = gr", "initial_value": "0"}, {"expression": "gr' = -g - 3*gq - 3*gr", "initial_value": "2"}],
      "chain_map": {"g": "g", "g__d": "gq", "g__d__d": "gr"}, "order": 3},
+    {"name": "g", "function": "g = t**3*exp(-t)", "ode": {"expression": "g'''' = -g - 4*g' - 6*g'' - 4*g'''", "initial_values": {"g": "0", "g'": "0", "g''": "0", "g'''": "6"}},
+     "chain": [{"expression": "g' = gq", "initial_value": "0"}, {"expression": "gq' = gr", "initial_value": "0"}, {"expression": "gr' = gs", "initial_value": "0"},
+               {"expression": "gs' = -g - 4*gq - 6*gr - 4*gs", "initial_value": "6"}],
+     "chain_map": {"g": "g", "g__d": "gq", "g__d__d": "gr", "g__d__d__d": "gs"}, "order": 4},
 ]
 
 
